@@ -195,9 +195,9 @@ def is_generalized_ppt(rho, dim, return_info=False):
         tmp1 = rho.transpose(*dim0, *dim1).reshape(tmp0, -1)
         # nuclear norm: sum of singular values
         ret.append((dim0, dim1, np.linalg.norm(tmp1, ord='nuc')))
-        if (not return_info) and (ret[-1][2]>1):
+        if (not return_info) and (ret[-1][2]>1+1e-10):
             break
-    tag = all(x[2]<=1 for x in ret)
+    tag = all(x[2]<=1+1e-10 for x in ret) #the norm is exactly 1 for many separable states, allow rounding
     ret = (tag,ret) if return_info else tag
     return ret
 
